@@ -45,6 +45,10 @@ CHECKS = {
    tech="explicit-state exploration of the real debugger step function with a per-state denotation invariant against the consensus evaluator",
    text="The subject is the transition system CldbRun::step/run_step itself. Every (program, environment) of two finite families (all CLVM trees with <= 4 (thorough 5) leaves over a 16-atom alphabet x 3 environments; well-formed nested expressions of depth <= 2 over f r l c + = i a x 2 environments) is stepped from the initial state to termination; in every visited state the continuation stack is reified and evaluated with clvmr and must denote the program's consensus result; every emitted row with operator, arguments and value is re-evaluated with clvmr; row numbering, termination (Final / Throw / Failure) and hex-vs-source equality are checked. All traces are traces of the implementation (no separate model).",
    note="Trusted: clvmr; row texts are re-read with the modern reader (round trip established by C09). Known findings: F15 (pair in operator position) and F25 (pending `i` operator rows), matched by input class / symptom."),
+ "C13": dict(engine="progmc", cat="exploration", ref="DESIGN.md 4/C13",
+   tech="bounded exhaustive enumeration of programs with functions; every symbol entry checked against all subtree hashes of the emitted code and by running the extracted code",
+   text="For every generated program with user functions and compiler-synthesised helpers (binder chains of length <= 2 (thorough 3), call graphs, parameter shapes) x 6 sigils x both entry option sets, the harness computes the tree hash of every subtree of the emitted program; each function entry whose code occurs in the program must carry the right name and written argument list, and its extracted code, run by clvmr in (left-env . arguments), must return what the reference interpreter returns for calling that function; unoptimised builds must have an entry for every non-inlined function.",
+   note="Trusted: reference interpreter, clvmr, the harness's sha256 tree hash (cross-checked against clvmr in C07). Classic programs are not covered (modern symbol tables only)."),
  "C14": dict(engine="crashmc", cat="exploration", ref="DESIGN.md 4/C14",
    tech="bounded exhaustive token-soup / single-mutation neighbourhood / raw-byte enumeration over every entry point, in isolated worker processes with a wall-clock watchdog",
    text="Every token sequence of <= 3 (thorough 4) tokens over a 24-token alphabet on 13 entry points (compile through the library entry and in 5 dialects, assemble+disassemble, brun, cldb, dependency listing, unused-argument check, preprocess, REPL), every 4 (5)-token sequence on the reader-level entry points, every single-token deletion / duplication / adjacent swap and every truncation of 13 seed programs and of shipped sources, every byte string of length <= 2 and class strings of length 3 (4) on the binary/hex/assembler entry points, and ~850 include-file contents under 3 host programs. Panics are caught and identified by source site; aborts/stack overflows/hangs kill only the worker and are bisected to one case; every located compiler error is checked to name a real text and to lie inside it.",
